@@ -9,6 +9,8 @@ import DymVerif.Gen.Guards
   tx <k> T1 … Tk                     -> ok | rej deep | rej ethtx <alias> | rej disabled <alias>
                                         | rej grant <alias> | rej unpack
        T ::= <alias> <authAlias|-> <bad:0|1> <k> T1 … Tk
+  path <i,j,…|-> <k> T1 … Tk         -> at <alias> depth <d> | none      (M-Ante `reach`)
+  wrappers                           -> sorted Go types of the wrappers that execute packed messages
   own <obj> <actor>                  -> ok          (fixture: object `obj` is owned by actor)
   fix <what> [a<i>]                  -> ok          (fixture maintenance; `fix buy a<i>`: new buy order of actor i = object 5)
   ext <typeURL> <signer>             -> rej         (any message with an Authority field from a non-authority signer)
@@ -82,6 +84,20 @@ def step (s : St) (f : List String) : St × String :=
     match parseMsgs s (nat! k) rest with
     | some (ms, []) => (s, showErr s (anteCheck Gen.Ante.config ms))
     | _ => (s, "bad-op")
+  | "path" :: ps :: k :: rest =>
+    -- the node addressed by an index path (descending through the hub's real wrappers only)
+    match parseMsgs s (nat! k) rest with
+    | some (ms, []) =>
+      let p := if ps = "-" then [] else (ps.splitOn ",").map nat!
+      match reach (fun ty => realWrappers.lookup ty) ms p with
+      | some m => (s, s!"at {if m.ty = tyOther then "other" else aliasOf s m.ty} depth {p.length - 1}")
+      | none => (s, "none")
+    | _ => (s, "bad-op")
+  | ["wrappers"] =>
+    -- Go types of the message types whose packed messages are executed (specification side)
+    let names := realWrappers.filterMap (fun w =>
+      if w.2 = Acc.msgs then (Gen.Ante.typeNames.lookup w.1) else none)
+    (s, ",".intercalate (names.mergeSort (fun a b => decide (a ≤ b))))
   | ["own", o, a] => ({ s with owners := setOwner s.owners (nat! o) (nat! (a.drop 1).toString) }, "ok")
   | ["fix", "buy", a] => ({ s with owners := setOwner s.owners 5 (nat! (a.drop 1).toString) }, "ok")
   | ["fix", _] => (s, "ok")
